@@ -439,7 +439,10 @@ func init() {
 		nullDenotation: func(p *parser, right ast.Expression, tokenRange ast.Range) (ast.Expression, error) {
 			switch right := right.(type) {
 			case *ast.IntegerExpression:
-				if right.Value.Sign() > 0 {
+				// Fold the minus into the literal, unless it is already negative.
+				// NOTE: also fold it into a zero literal (-0 is the literal 0),
+				// so that it is checked against the expected type like any other literal
+				if right.Value.Sign() >= 0 {
 					if right.Value != nil {
 						right.Value.Neg(right.Value)
 					}
